@@ -53,21 +53,35 @@ class Lock:
         self.f.close()
 
 
-def mir_dump(log=print):
+FEATURES = {
+    # the default dump: everything that is pure Rust (object-store server, sealing) without FFI-backed modules
+    'core': 'cloud,encryption',
+    # adds the modules written over FFI-backed crates (rusqlite, reqwest); those crates are modelled at their call
+    # boundary: the local server (4 fixed SQL statements) and the HTTP client (request/response mapping)
+    'full': 'cloud,encryption,server-sync,server-local,storage-sqlite,bundled,tls-webpki-roots',
+}
+
+
+def mir_path(variant='core'):
+    return os.path.join(BUILD, 'crate.mir' if variant == 'core' else 'crate-%s.mir' % variant)
+
+
+def mir_dump(log=print, variant='core'):
     """returns (path, seconds, regenerated)"""
     h = source_hash()
-    out = os.path.join(BUILD, 'crate.mir')
-    tag = os.path.join(BUILD, 'crate.mir.hash')
+    out = mir_path(variant)
+    tag = out + '.hash'
     with Lock('mir'):
         if os.path.exists(out) and os.path.exists(tag) and open(tag).read().strip() == h and os.path.getsize(out) > 100000:
             return out, 0.0, False
         t0 = time.time()
         cmd = ['cargo', '+' + NIGHTLY, 'rustc', '--offline', '--lib', '--no-default-features',
-               '--features', 'cloud,encryption', '--', '-Zunpretty=mir', '-C', 'debug-assertions=off',
+               '--features', FEATURES[variant], '--', '-Zunpretty=mir', '-C', 'debug-assertions=off',
                '-C', 'overflow-checks=on', '--cfg', 'mirsym_h' + h[:12], '-A', 'unexpected_cfgs']
         env = _env()
         env['CARGO_TARGET_DIR'] = os.path.join(BUILD, 'mir-target')
         tmp = out + '.tmp'
+        # the nightly leaves the dump empty when nothing was recompiled: the per-hash --cfg forces the crate itself
         with open(tmp, 'w') as fo, open(os.path.join(BUILD, 'mir.err'), 'w') as fe:
             r = subprocess.run(cmd, cwd=REPO, env=env, stdout=fo, stderr=fe)
         if r.returncode != 0 or os.path.getsize(tmp) < 100000:
